@@ -243,6 +243,7 @@ pub fn run_one(sc: &Scenario, op: &'static OpDef, input: &Input, prefix_inputs: 
         thread_wrap: Some(seams::on_sim_stack),
         stack: 16 << 20,
         atomic_rate: if cfg!(feature = "atomic-points") { cfg.atomic_rate } else { 0 },
+        yield_on_block: true,
         ..sim::Config::default()
     };
     let from_worker = cfg.from_worker;
